@@ -322,6 +322,53 @@ async def _run(ctx, ttext):
                     kc = "[" + "; ".join(zl(k) for k in vkeys) + "]"
                     cases.append(("([%s], [%s], %s, %s, %s)" % ("; ".join(lens), "; ".join(valids), kc, fcoq, zl(md)), exp))
                     meta.append(m)
+    # ---- the hand-parsed path: EZPackOverlay._ez_unpack_auth against the model's ez_unpack_auth
+    from ipv8.messaging.payload import IntroductionRequestPayload
+    ez_cases = []
+    ez_fmts = [("struct", [("U", 8)])] + wire.class_fmts(IntroductionRequestPayload, reg)
+    ez_fcoq = "[" + "; ".join(wire.fmt_coq(f) for f in ez_fmts) + "]"
+    kc = "[" + "; ".join(zl(k) for k in vkeys) + "]"
+    for (i, d, src, how) in valid:
+        ov = B.overlays[i]
+        if d[22] != 246 or len(d) > 400:
+            continue
+        others = [o for o in all_valid_bytes if o is not d]
+        for (mname, md) in [("unmutated", d)] + mutations(r, d, others, wrong_key, True):
+            if len(md) > 500:
+                continue
+            auth_ok, pk_field = independent_auth(md)
+            lens, valids = [], []
+            if pk_field is not None:
+                try:
+                    key = ec.key_from_public_bin(pk_field)
+                    n = ec.get_signature_length(key)
+                    lens.append("(%s, %d%%nat)" % (zl(pk_field), n))
+                    sp, sg = (md[:-n], md[-n:]) if n else (b"", md)
+                    if ec.is_valid_signature(key, sp, sg):
+                        valids.append("(%s, %s, %s)" % (zl(pk_field), zl(sp), zl(sg)))
+                except Exception:   # noqa
+                    pass
+            try:
+                auth, gt, pl = ov._ez_unpack_auth(IntroductionRequestPayload, md)
+                vals = ["(VInt %d)" % gt.global_time] + wire.msg_vals_coq(ez_fmts[1:], pl)
+                exp = "Ok (%s, [%s])" % (zl(auth.public_key_bin), "; ".join(vals))
+                if not auth_ok or auth.public_key_bin != pk_field:
+                    ctx.violation("ez_unpack_auth-accepts-unauthentic/%s" % mname,
+                                  "_ez_unpack_auth returned for a datagram without a valid signature by its own key",
+                                  {"kind": "datagram", "mutation": mname, "data": md.hex(), "src": list(src), "overlay": type(ov).__name__})
+            except Exception:   # noqa
+                exp = "Raise DecodingError"
+            ctx.count(("ez", md), nontrivial=len(md) > 23)
+            ez_cases.append(("([%s], [%s], %s, %s, %s)" % ("; ".join(lens), "; ".join(valids), kc, ez_fcoq, zl(md)), exp))
+    if ttext is not None and ez_cases:
+        mism, errs = coqrun.eval_mismatches(IMPORTS, "run_signed", "res_eqb_loose pkvs_eqb", ez_cases, os.path.join(ctx.scratch, "ez"),
+                                            ctype="auth_case * res (bytes * list val)", shard=150, jobs=14)
+        for e in errs:
+            ctx.broke("model evaluation failed (ez_unpack_auth)", e)
+        for k in mism[:5]:
+            ctx.broke("correspondence: _ez_unpack_auth differs from the model", ez_cases[k][0][-600:])
+        ctx.coverage["traces_validated_against_impl"] += len(ez_cases) - len(mism)
+        ctx.extra["ez_unpack_auth_cases"] = len(ez_cases)
     ctx.extra["outcomes"] = {k: v for k, v in stats.items() if k != "by_mutation"}
     ctx.extra["mutation_mix"] = stats["by_mutation"]
     if valid:
